@@ -368,8 +368,19 @@ package wal
 //@ assume at call listAllSegments#0: err == nil ==> forall k int :: 0 <= k && k < len(segments) ==> 0 <= segments[k] && segments[k] < 4611686018427387904 because "segment file names are the non-negative base offsets this WAL wrote"
 //@ ensures result == nil ==> t.currentSegment != nil && rwInv(curSeg(t)) && t.lastAppendedOffset.v == curSeg(t).lastOffset && t.lastSyncedOffset.v == t.lastAppendedOffset.v && -1 <= t.firstOffset.v
 
+// The segment list is sorted by base offset (recovery takes the last element as the
+// current segment and the rest as read-only segments). Which files exist and what
+// their names parse to is external (directory listing, Sscanf).
+//
 //@ func listAllSegments
-//@ trusted
-//@ pure
+//@ property C10 C09
 //@ nondet
-//@ note directory listing and Sscanf of file names are not verified
+//@ assume forall i int :: 0 <= i && i < len(codec.SupportedCodecs) ==> codec.SupportedCodecs[i] != nil because "package-level slice literal of the codec singletons, never written"
+//@ loop 0 invariant segments == nil || fresh(segments)
+//@ loop 0 modifies fresh, fields(int64), fields(uint64), fields(int)
+//@ loop 1 invariant segments == nil || fresh(segments)
+//@ loop 1 modifies fresh, fields(int64), fields(uint64), fields(int)
+//@ ensures err == nil ==> forall i int, j int :: 0 <= i && i < j && j < len(segments) ==> segments[i] <= segments[j]
+//@ ensures segments == nil || fresh(segments)
+//@ modifies fields(int64), fields(uint64), fields(int)
+//@ note the frame is as wide as the trusted contract of fmt.Sscanf (any integer cell); the only cell actually written is the local id
